@@ -38,10 +38,15 @@ def prepare_batch(work, tools, seed, n_designs, race, focus=""):
         if p.returncode != 0:
             return name, "gluefail", p.stderr.decode()[-600:]
         # does what goa generated type-check? (C01 territory: a failure drops the design, it is not a verdict here)
-        p = subprocess.run(["go", "build", "./" + name + "/gen/..."], cwd=root, env=GOENV, stdout=subprocess.PIPE, stderr=subprocess.STDOUT)
-        if p.returncode != 0:
-            return name, "uncompilable", p.stdout.decode("utf-8", "replace")[-1200:]
-        return name, "ok", ""
+        for attempt in range(3):
+            p = subprocess.run(["go", "build", "./" + name + "/gen/..."], cwd=root, env=GOENV, stdout=subprocess.PIPE, stderr=subprocess.STDOUT)
+            out = p.stdout.decode("utf-8", "replace")
+            if p.returncode == 0:
+                return name, "ok", ""
+            if re.search(r"\.go:\d+:\d+: ", out):
+                return name, "uncompilable", out[-1200:]  # a compiler diagnostic: what goa generated does not type-check
+            time.sleep(1 + attempt)  # anything else (a killed compiler, a cache hiccup under load) is not about the design
+        return name, "buildtrouble", out[-1200:]
 
     with ThreadPoolExecutor(max_workers=NCPU) as ex:
         results = list(ex.map(one, range(n_designs)))
@@ -66,6 +71,8 @@ def prepare_batch(work, tools, seed, n_designs, race, focus=""):
                 os.makedirs(byprod, exist_ok=True)
                 shutil.copy(os.path.join(specdir, name + ".json"), os.path.join(byprod, "uncompilable-seed%d-%s.json" % (seed, name)))
             shutil.rmtree(os.path.join(root, name), ignore_errors=True)
+        elif st == "buildtrouble":
+            raise Trouble("go build of generated design %s failed three times without a compiler diagnostic:\n%s" % (name, msg))
         else:
             stats["generator_failed" if st == "genfail" else "glue_failed"] += 1
             log("  design %s dropped (%s): %s" % (name, st, msg[-300:]))
